@@ -50,6 +50,15 @@ def Out.isPanic : Out → Bool
   | .panic _ => true
   | _ => false
 
+/-- tag, numbers and blobs of an accepted message (`none`: refused or panicked) - lets theorems name an outcome -/
+def Out.accepted : Out → Option (String × List Nat × List Bytes)
+  | .ok t ns bs => some (t, ns, bs)
+  | _ => none
+
+def Out.panicSite : Out → Option String
+  | .panic s => some s
+  | _ => none
+
 structure Res where
   out : Out
   locks : List Lock   -- locks still held when the handler has returned / unwound
@@ -161,12 +170,19 @@ def getDataLoop : Nat → Bytes → List Bytes → Nat → Res
       let (h, r) := readUpTo 36 b
       getDataLoop f r (h :: acc) (st + 1)
 
-def processGetData (pl : Bytes) : Res :=
+/-- `pending`: `some p` = c.unfinished_getdata is not nil and holds p bytes (an earlier getdata was
+    postponed because the send buffer was full): the new request is appended to it, or refused when
+    the two together exceed 36·50000 bytes (data.go:33-42); `none` = the loop runs now. -/
+def processGetData (pending : Option Nat) (pl : Bytes) : Res :=
   match readVLen pl with
   | none => ⟨.ok "getdata-noop" [] [], [], 1⟩
   | some (cnt, b) =>
     if (b.length : Int) ≠ wrap (wrap (cnt : Int) * 36) then ⟨.reject "GetDataLenERR", [], 1⟩
-    else getDataLoop (b.length + 1) b [] 1
+    else match pending with
+      | some p =>
+        if p + b.length > 36 * 50000 then ⟨.reject "GetDataTooBigA", [], 1⟩
+        else ⟨.ok "getdata-appended" [p + b.length] [], [], 1⟩
+      | none => getDataLoop (b.length + 1) b [] 1
 
 /-! ### addr (addr.go ParseAddr) — record extraction only -/
 
@@ -182,9 +198,10 @@ def parseAddr (pl : Bytes) : Res :=
     | none => (0, [])
     | some x => x
   let icnt := wrap (cnt : Int)
-  -- `for i := 0; i < int(cnt); i++` ; the loop leaves at the first short read, so at most
-  -- len/30 + 1 iterations whatever the count says
-  addrLoop (min icnt.toNat (b.length / 30 + 1)) b [] 1
+  -- `for i := 0; i < int(cnt); i++` with the count as announced (a negative int(cnt) runs no iteration);
+  -- that the loop leaves at the first short read, whatever the count says, is PROVED
+  -- (Proofs.C18 addrLoop_good: steps ≤ len/30 + 1), not built into the definition
+  addrLoop icnt.toNat b [] 1
 
 /-! ### getblocks / getheaders (data.go parseLocatorsPayload) -/
 
@@ -293,9 +310,14 @@ def processGetBlockTxnG (fixed : Bool) (ntx : Option Nat) (pl : Bytes) : Res :=
 
 def processGetBlockTxn := processGetBlockTxnG true
 
-/-! ### cmpctblock (cblk.go ProcessCmpctBlock), from `offs := 88` to the end of the prefilled loop.
+/-! ### cmpctblock (cblk.go ProcessCmpctBlock), from `offs := 88` through the short-id loop, the prefilled
+     loop and the SECOND PASS over col.Txs (cblk.go:360-382) which reads the short ids back from the payload.
      Precondition (backend): the header pl[:80] was accepted and the block is not over-requested.
-     `txSize` = btc.TxSize. MutexRcv is held with `defer Unlock` throughout: released at every exit. -/
+     `txSize` = btc.TxSize. MutexRcv is held with `defer Unlock` throughout: released at every exit.
+     The second pass runs between `txpool.TxMutex.Lock()` and its NON-deferred Unlock: a panic there
+     leaves TxMutex locked (Run's recover swallows the panic). What lies between the prefilled loop and
+     the second pass (sha256 of `pl[:88]` - legal since len(pl) ≥ 90 -, mempool matching with its two
+     "Same short ID - abort" early returns, both after an Unlock) is backend and not modelled. -/
 
 def shortIdLoop (pl : Bytes) (n : Int) : Nat → Int → List Bytes → Nat → Except Res (Int × List Bytes × Nat)
   | 0, offs, seen, st => .ok (offs, seen, st)
@@ -323,6 +345,30 @@ def prefilledLoop (fixed : Bool) (txSize : Bytes → Nat) (pl : Bytes) (n : Int)
     if !indexOk total idx then ⟨.panic "ProcessCmpctBlock:col.Txs[idx]", [], st⟩ else
     if !sliceOk n offs1 (wrap (offs1 + sz)) then ⟨.panic "ProcessCmpctBlock:pl[offs:offs+n]", [], st⟩ else
     prefilledLoop fixed txSize pl n total k (wrap (offs1 + sz)) (wrap (idx + 1)) (sz.toNat :: idx.toNat :: acc) (st + 1)
+
+/-- indices written by the prefilled loop, taken from its REVERSED result list
+    [szₖ, idxₖ, …, sz₁, idx₁] (the loop's accumulator) -/
+def pairIdx : List Nat → List Nat
+  | _ :: idx :: t => idx :: pairIdx t
+  | _ => []
+
+/-- `col.Txs = make([]interface{}, total)` followed by `col.Txs[idx] = pl[offs:offs+n]` for every
+    index written by the prefilled loop: `true` = the slot holds a []byte (prefilled) -/
+def slotsOf (total : Nat) (written : List Nat) : Array Bool :=
+  written.foldl (fun a i => a.setIfInBounds i true) (Array.replicate total false)
+
+/-- the second pass `for n = 0; n < len(col.Txs); n++ { switch col.Txs[n].(type) … }` over the slot list:
+    a prefilled slot is skipped; for any other slot the short id is read back from
+    `pl[shortidx_idx : shortidx_idx+6]` and looked up in the map the first loop built (`seen`);
+    `panic("Tx idx … is missing")` when it is not there; then `shortidx_idx += 6`.
+    txpool.TxMutex is held (no defer) throughout. -/
+def secondPass (pl : Bytes) (n : Int) (seen : List Bytes) : List Bool → Int → Nat → Res
+  | [], _, st => ⟨.ok "cmpctblock" [] [], [], st⟩
+  | true :: sl, sidx, st => secondPass pl n seen sl sidx (st + 1)
+  | false :: sl, sidx, st =>
+    if !sliceOk n sidx (wrap (sidx + 6)) then ⟨.panic "ProcessCmpctBlock:pl[shortidx_idx:shortidx_idx+6]", [.tx], st⟩ else
+    if !seen.contains (sub pl sidx (sidx + 6)) then ⟨.panic "ProcessCmpctBlock:Tx idx missing", [.tx], st⟩ else
+    secondPass pl n seen sl (wrap (sidx + 6)) (st + 1)
 
 /-! #### compiled-code shortcuts (`@[csimp]`: proved equal, the compiler uses the fast form; the
      definitions above stay the ones every theorem is about). The loops above re-slice the payload from
@@ -425,6 +471,41 @@ def prefilledLoopFast (fixed : Bool) (txSize : Bytes → Nat) (pl : Bytes) (n to
 @[csimp] theorem prefilledLoop_eq_fast : @prefilledLoop = @prefilledLoopFast := by
   funext fixed txSize pl n total k offs exp acc st; exact prefilledLoop_eq_R fixed txSize pl n total k offs exp acc st
 
+def secondPassR (n : Int) (seen : List Bytes) : List Bool → Bytes → Int → Nat → Res
+  | [], _, _, st => ⟨.ok "cmpctblock" [] [], [], st⟩
+  | true :: sl, rest, sidx, st => secondPassR n seen sl rest sidx (st + 1)
+  | false :: sl, rest, sidx, st =>
+    if !sliceOk n sidx (wrap (sidx + 6)) then ⟨.panic "ProcessCmpctBlock:pl[shortidx_idx:shortidx_idx+6]", [.tx], st⟩ else
+    if !seen.contains (rest.take 6) then ⟨.panic "ProcessCmpctBlock:Tx idx missing", [.tx], st⟩ else
+    secondPassR n seen sl (rest.drop (wrap (sidx + 6) - sidx).toNat) (wrap (sidx + 6)) (st + 1)
+
+theorem secondPass_eq_R (pl : Bytes) (n : Int) (seen : List Bytes) : ∀ (sl : List Bool) (sidx : Int) (st : Nat),
+    secondPass pl n seen sl sidx st = secondPassR n seen sl (pl.drop sidx.toNat) sidx st := by
+  intro sl
+  induction sl with
+  | nil => intros; rfl
+  | cons b sl ih =>
+    intro sidx st
+    cases b with
+    | true => unfold secondPass secondPassR; exact ih sidx (st + 1)
+    | false =>
+      unfold secondPass secondPassR
+      have hsub : sub pl sidx (sidx + 6) = (pl.drop sidx.toNat).take 6 := by
+        unfold sub; congr 1; omega
+      by_cases h2 : sliceOk n sidx (wrap (sidx + 6)) = true
+      · simp only [h2, Bool.not_true, Bool.false_eq_true, ↓reduceIte, hsub]
+        by_cases h3 : seen.contains ((pl.drop sidx.toNat).take 6) = true
+        · simp only [h3, Bool.not_true, Bool.false_eq_true, ↓reduceIte]
+          rw [ih, drop_advance pl sidx _ n h2]
+        · simp only [h3, Bool.not_false, ↓reduceIte]
+      · simp only [h2, Bool.not_false, ↓reduceIte]
+
+def secondPassFast (pl : Bytes) (n : Int) (seen : List Bytes) (sl : List Bool) (sidx : Int) (st : Nat) :=
+  secondPassR n seen sl (pl.drop sidx.toNat) sidx st
+
+@[csimp] theorem secondPass_eq_fast : @secondPass = @secondPassFast := by
+  funext pl n seen sl sidx st; exact secondPass_eq_R pl n seen sl sidx st
+
 def processCmpctBlockG (fixed : Bool) (txSize : Bytes → Nat) (pl : Bytes) : Res :=
   let n : Int := pl.length
   if n < 90 then ⟨.reject "CmpctBlkErrA", [], 1⟩ else
@@ -433,12 +514,16 @@ def processCmpctBlockG (fixed : Bool) (txSize : Bytes → Nat) (pl : Bytes) : Re
   if m == 0 || decide (scnt < 0) || decide (m > 3) then ⟨.reject "CmpctBlkErrB", [], 1⟩ else
   match shortIdLoop pl n scnt.toNat (88 + m) [] 1 with
   | .error r => r
-  | .ok (offs, _, st) =>
+  | .ok (offs, seen, st) =>
     if !sliceOk n offs n then ⟨.panic "ProcessCmpctBlock:pl[offs:] (prefilledcnt)", [], st⟩ else
     let (pcnt, m2) := vlen (pl.drop offs.toNat)
     if m2 == 0 || decide (pcnt < 0) || decide (m2 > 3) then ⟨.reject "CmpctBlkErrC", [], st⟩ else
     match prefilledLoop fixed txSize pl n (pcnt + scnt) pcnt.toNat (wrap (offs + m2)) 0 [] st with
-    | ⟨.ok t nums bl, l, s⟩ => ⟨.ok t (scnt.toNat :: pcnt.toNat :: nums) bl, l, s⟩
+    | ⟨.ok t nums bl, _, s⟩ =>
+      -- txpool.TxMutex.Lock(); …; second pass over col.Txs, shortidx_idx starting where the short ids start
+      match secondPass pl n seen (slotsOf (pcnt + scnt).toNat (pairIdx nums.reverse)).toList (88 + m) s with
+      | ⟨.ok _ _ _, l2, s2⟩ => ⟨.ok t (scnt.toNat :: pcnt.toNat :: nums) bl, l2, s2⟩   -- txpool.TxMutex.Unlock()
+      | r => r
     | r => r
 
 def processCmpctBlock := processCmpctBlockG true
@@ -538,7 +623,17 @@ def getMPLoop : Nat → Bytes → Nat → Nat → Res
 def processGetMP (pl : Bytes) : Res :=
   match readVLen pl with
   | none => ⟨.reject "GetMPError1", [], 1⟩
-  | some (cnt, b) => getMPLoop (min (wrap (cnt : Int)).toNat (b.length / 8 + 1)) b 0 1
+  | some (cnt, b) => getMPLoop (wrap (cnt : Int)).toNat b 0 1   -- `for i := 0; i < int(cnt); i++`, plain count
+
+/-- tick.go Run, `case "authack"`: an unsigned one ends the connection (Disconnect, no ban); a signed one
+    sets AuthAckGot under c.Mutex (Lock / Unlock closed before the payload is looked at), then
+    `if len(pl) > 0 { ChainSynchronized = pl[0] != 0 }`. nums = [has payload, synchronized flag]. -/
+def authAck (trusted : Bool) (pl : Bytes) : Res :=
+  if !trusted then ⟨.ok "authack-unsigned" [] [], [], 1⟩ else
+  if pl.length > 0 then
+    (if !indexOk pl.length 0 then ⟨.panic "authack:pl[0]", [], 1⟩
+     else ⟨.ok "authack" [1, if pl.head? ≠ some 0 then 1 else 0] [], [], 1⟩)
+  else ⟨.ok "authack" [0, 0] [], [], 1⟩
 
 /-! ### core.go FetchMessage: one complete message at the start of `wire` -/
 
@@ -587,6 +682,8 @@ structure Env where
   ntx : Option Nat          -- getblocktxn: size of the named block
   authGot : Bool            -- xauth already seen on this connection
   authorized : Bool
+  pendingGetData : Option Nat   -- getdata: bytes waiting in c.unfinished_getdata (`none`: nil)
+  trusted : Bool            -- cmd.trusted: the message came signed / through the encrypted channel
 
 def parse (E : Env) (cmd : String) (pl : Bytes) : Res :=
   if cmd = "version" then handleVersion pl
@@ -595,7 +692,7 @@ def parse (E : Env) (cmd : String) (pl : Bytes) : Res :=
   else if cmd = "addr" then parseAddr pl
   else if cmd = "block" then netBlockReceived pl
   else if cmd = "getblocks" then getBlocks pl
-  else if cmd = "getdata" then processGetData pl
+  else if cmd = "getdata" then processGetData E.pendingGetData pl
   else if cmd = "pong" then handlePong pl
   else if cmd = "getheaders" then getHeaders pl
   else if cmd = "headers" then handleHeaders pl
@@ -606,6 +703,7 @@ def parse (E : Env) (cmd : String) (pl : Bytes) : Res :=
   else if cmd = "blocktxn" then processBlockTxn E.txSize pl
   else if cmd = "getmp" then (if E.authorized then processGetMP pl else ⟨.ok "ignored" [] [], [], 1⟩)
   else if cmd = "xauth" then authRcvd E.authGot pl
+  else if cmd = "authack" then authAck E.trusted pl
   else ⟨.ok "no-parse" [] [], [], 1⟩   -- ping, getaddr, notfound, sendheaders, getmpdone, filter*, unknown: payload not indexed
 
 end GocoinV.NetParse
